@@ -178,3 +178,83 @@ theorem transpose_reshape_core (nd : NDArr α) (pS pR sS ordS : List Nat)
   simp [ravelC, List.map_reverse]
 
 end Usid.Reshape
+
+namespace Usid.Reshape
+open Usid Usid.Grid Usid.Dims Usid.C09 Usid.Translate
+
+variable {α : Type} [Inhabited α]
+
+/-- the mirror image of `transpose_reshape_core`: ANY arrangement of the position axes, the spectroscopic
+    side arranged by its sort order -/
+theorem transpose_reshape_core_spec (nd : NDArr α) (pS ordP sS sR : List Nat)
+    (hS : ValidGrid sS sR) (hkS : sS.length ≤ npoints (sizeFn sS) sR)
+    (hordP : ordP.Perm (List.range pS.length)) (hshape : nd.shape = pS ++ sS) :
+    let ordS := getSortOrder (gridMatrix sS sR)
+    let sigma := sigmaOf pS.length ordP ordS
+    let T := nd.transpose sigma (inversePerm (pS.length + sS.length) sigma)
+    transposeND nd sigma = .ok T ∧
+    T.flat.length = pS.prod * npoints (sizeFn sS) sR ∧
+    ∀ c idxP, c < npoints (sizeFn sS) sR → InBounds pS idxP →
+      (T.reshape [pS.prod, npoints (sizeFn sS) sR]).get
+          [ravelC (ordP.reverse.map (fun d => pS.getD d 1)) (ordP.reverse.map (fun d => idxP.getD d 0)), c] =
+        nd.get (idxP ++ coords sS sR c (List.range sS.length)) := by
+  intro ordS sigma T
+  have hpermS0 := (order_is_rate sS sR hS hkS).1
+  have hpermS := hpermS0.trans hS.1
+  have hsig : sigma.Perm (List.range (pS.length + sS.length)) := sigma_perm pS.length sS.length _ _ hordP hpermS
+  obtain ⟨_, hslen, hslt, hsmem⟩ := perm_facts _ sigma hsig
+  have hklen : nd.shape.length = pS.length + sS.length := by rw [hshape]; simp
+  have hltP : ∀ d ∈ ordP, d < pS.length := fun d hd => List.mem_range.mp (hordP.subset hd)
+  have hprodS : (ordS.map (sizeFn sS)).prod = npoints (sizeFn sS) sR := (hpermS0.map _).prod_nat
+  have hprodP : (ordP.map (fun d => pS.getD d 1)).prod = pS.prod := by
+    have := (hordP.map (fun d => pS.getD d 1)).prod_nat
+    rw [this]
+    conv => rhs; rw [sizes_eq_map pS]
+    rfl
+  have htr : transposeND nd sigma = .ok T := by
+    unfold transposeND
+    rw [hklen]
+    have c1 : (sigma.length != pS.length + sS.length) = false := by rw [hslen]; simp
+    have c2 : (List.range (pS.length + sS.length)).all (fun ax => sigma.contains ax) = true := by
+      rw [List.all_eq_true]; intro ax hax
+      simpa using hsmem ax (List.mem_range.mp hax)
+    simp only [c1, c2, Bool.not_true, Bool.or_self, Bool.false_eq_true, if_false]
+    rfl
+  have hshT : T.shape = ordP.reverse.map (fun d => pS.getD d 1) ++ ordS.reverse.map (sizeFn sS) := by
+    show sigma.map (fun ax => nd.shape.getD ax 1) = _
+    rw [hshape, sigma_map pS.length _ _ pS sS 1 rfl hltP]; rfl
+  have hflatT : T.flat.length = pS.prod * npoints (sizeFn sS) sR := by
+    have : T.flat.length = T.shape.prod := by simp [T, NDArr.transpose]
+    rw [this, hshT, List.prod_append, List.map_reverse, List.map_reverse, (List.reverse_perm _).prod_nat,
+      (List.reverse_perm _).prod_nat, hprodP, hprodS]
+  refine ⟨htr, hflatT, ?_⟩
+  intro c idxP hc hbP
+  have hlenP : pS.length = idxP.length := inBounds_length pS idxP hbP
+  have hb : InBounds nd.shape (idxP ++ coords sS sR c (List.range sS.length)) := by
+    rw [hshape]
+    exact inBounds_append _ _ _ _ hbP (coords_inBounds sS sR hS c)
+  have hb2 := inBounds_map nd.shape _ hb sigma (fun i hi => by rw [hklen]; exact hslt i hi)
+  have hfl : (idxP ++ coords sS sR c (List.range sS.length)).length = pS.length + sS.length := by
+    simp [coords, hlenP]
+  have hg := gather_inverse (idxP ++ coords sS sR c (List.range sS.length)) sigma
+    (fun i hi => hsmem i (by rw [← hfl]; exact hi))
+  rw [hfl] at hg
+  have ht := transpose_get nd sigma (inversePerm (pS.length + sS.length) sigma) _ hb2
+  rw [hg] at ht
+  rw [← ht, reshape_get]
+  unfold NDArr.get
+  congr 1
+  rw [hshT]
+  have hsc := sigma_map pS.length ordP ordS idxP (coords sS sR c (List.range sS.length)) 0 hlenP.symm hltP
+  rw [hsc, ravelC_append _ _ _ _ (by simp)]
+  have e2 := ravel_sorted_coords sS sR hS hkS c hc
+  have c2 : ordS.reverse.map (fun d => (coords sS sR c (List.range sS.length)).getD d 0) =
+      ordS.reverse.map (fun d => gridIdx (sizeFn sS) sR c d) := by
+    apply List.map_congr_left
+    intro d hd
+    have hdk : d < sS.length := List.mem_range.mp (hpermS.subset (List.mem_reverse.mp hd))
+    simp [coords, List.getD_eq_getElem?_getD, List.getElem?_map, List.getElem?_range hdk]
+  rw [c2, e2, List.map_reverse (l := ordS), (List.reverse_perm _).prod_nat, hprodS]
+  simp [ravelC]
+
+end Usid.Reshape
